@@ -82,6 +82,7 @@ def norm(q):
     q = re.sub(r'\((unnamed|anonymous) (union|struct) at ', r'(\1 \2_at ', q)     # keep the kind word from NS_STRIP
     q = NS_STRIP.sub('', q)
     q = NS_STRIP.sub('', q)
+    q = re.sub(r'\b(?:core|basic|buildsystem|ninja|commands)::', '', q)     # partially qualified spellings of the same type
     return q.strip()
 
 
@@ -1765,7 +1766,9 @@ class Translator:
         # copy / move construction of a value type: the C value itself
         if len(argnodes) == 1:
             a = argnodes[0]
-            if self.objtype(a) == t or (td and self.objtype_desugared(a) == td):
+            if self.objtype(a) == t or (td and self.objtype_desugared(a) == td) or \
+                    (re.sub(r'^const ', '', ptxt).rstrip('& ').strip() == t.split('::')[-1] and
+                     t.split('::')[-1] in (self.objtype(a).split('::')[-1], (self.objtype_desugared(a) or '').split('::')[-1])):
                 return self.expr(a)
         ct = self.ntype(n)
         if not argnodes and ct.base.startswith('struct '):
